@@ -41,7 +41,7 @@ func init() {
 		Run: run,
 		Floors: func(t string) map[string]int64 {
 			return map[string]int64{"pair.hop": 500, "pair.axis": 300, "pair.ordinary": 300, "history.calls": 20000, "history.repeat_call": 2000, "history.to_registered_wgs84": 1000, "history.failing_input": 1000, "pair.one_side_cannot_be_set_up": 100,
-				"structure.failing_k": 10000, "structure.nil_transformer": 1000, "structure.real_transformer": 1000, "structure.*Bounds": 100, "structure.GeometryCollection": 100, "structure.MultiPolygon": 100, "structure.MultiLineString": 100}
+				"structure.failing_k": 10000, "structure.shared_backing_array": 1000, "structure.nil_transformer": 1000, "structure.real_transformer": 1000, "structure.*Bounds": 100, "structure.GeometryCollection": 100, "structure.MultiPolygon": 100, "structure.MultiLineString": 100}
 		},
 	})
 }
@@ -340,6 +340,13 @@ func runStructure(c *core.Ctx) {
 	g := gen.RandGeomKind(r, o, k, 0)
 	name := tname(g)
 	c.Count("structure." + name)
+	var arena *gen.Arena
+	if _, isBox := g.(*geom.Bounds); !isBox && r.Chance(0.4) {
+		// paths as consecutive sub-slices of one backing array (see gen.InArena)
+		arena = gen.InArena(g)
+		g = arena.G
+		c.Count("structure.shared_backing_array")
+	}
 	want := gen.Flatten(g)
 	before := gen.DeepCopy(g)
 	detail := map[string]interface{}{"geometry": gen.Dump(g)}
@@ -377,6 +384,11 @@ func runStructure(c *core.Ctx) {
 						break
 					}
 				}
+			}
+		}
+		if arena != nil {
+			if ok, why := arena.Intact(); !ok {
+				c.Violate("input-modified:shared-storage:"+name, fmt.Sprintf("%s.Transform modified its input: %s", name, why), detail)
 			}
 		}
 		if ok, why := gen.SameStructure(before, g); !ok {
